@@ -322,6 +322,7 @@ func c18(c *core.Check) {
 		r2.Cond(ok, "svg.(*svgContext).inheritElement | inheritElement(parent)", p.Pos(ie.Pos()), why, why)
 	}
 	c18Geometry(c)
+	c18ArcCenter(c)
 	r3 := c.Rule("R3", "no call passes two same-typed arguments under each other's parameter names (swapped arguments): every pair of arguments named after the callee's parameters is aligned with them", 60)
 	argNameRule(c, r3, "svg", nil, 90)
 }
